@@ -94,9 +94,9 @@ func c06Cases(tier string, seed uint64) []fw.Case {
 					if tier != "thorough" && (si+int(hook*2))%4 != 0 {
 						continue
 					}
-					reps := 10
+					reps := 25
 					if tier == "thorough" {
-						reps = 100
+						reps = 200
 					}
 					c := c06Case{Alts: alts, Seq: sq, Conc: true, Hook: hook, Msg: msg, Reps: reps}
 					c.Name = fmt.Sprintf("conc/a%d-%v-h%v", alts, sq, hook)
@@ -115,11 +115,24 @@ func c06Run(c *c06Case, env *fw.Env, v *fw.V) {
 		v.Inconclusive("parse", "%v", err)
 		return
 	}
+	perturb.Rendezvous("", 0)
 	if c.Hook > 0 {
 		perturb.ConfigureSites(map[string]float64{"ebg.cas": c.Hook, "ebg.won": c.Hook, "catch.consume": c.Hook / 2, "catch.event": c.Hook / 2}, 400)
 	} else {
 		perturb.Off()
+		if c.Conc {
+			// no delays, but the competing flows are aligned in front of the determination:
+			// all distinct alternatives of the batch leave the hook at the same instant
+			distinct := map[int]bool{}
+			for _, e := range c.Seq {
+				if e < c.Alts {
+					distinct[e] = true
+				}
+			}
+			perturb.Rendezvous("ebg.cas", len(distinct))
+		}
 	}
+	defer perturb.Rendezvous("", 0)
 	in, err := drive.New(env.Label, defs, drive.Opts{ExtraSubs: 1})
 	if err != nil {
 		v.Violate("new-process-error", "error", "%v", err)
